@@ -156,6 +156,7 @@ class Worker:
         self.mod = mod
         self.prop = mod.PROPERTY
         self.tier = tier
+        os.environ['WNV_TIER'] = tier
         self.seed = seed
         self.shard = shard
         self.nshards = nshards
